@@ -29,6 +29,17 @@ CLAIMS = {
         'theorems (finding F13e, C02). No axioms.',
    technique='Coq proofs (scanner characterised by text decomposition, digit arithmetic) + extracted-model/implementation correspondence',
    ref='section 9, C13'),
+ 'C20': dict(
+   category='proof',
+   text='Type tables (SchemaType constants, IsValidType key set and answers, IsEqualSoft on all 18x18 pairs, token-type mappings, '
+        'json.Type tables, NewJsonType) are regenerated from /repo by the translator on every run and the theorems over them '
+        '(exact vocabulary, reflexivity, symmetry and documented families outside finding F20a, token agreement) are re-proved by '
+        'computation over the finite domain. GuessSchemaType is modelled (on top of the C13 number model) and proved to agree with '
+        'json.Guess(..).JsonType() on every byte string; the model is a function, and the code is compared with it 64 times per input.',
+   note='Trusted: Coq kernel incl. vm_compute; translator gotables (go/parser + evaluation); Spec/TypeVocab.v; extraction, driver, harness. '
+        'Known finding F20a (null~array one-directional, pinned by a stable subtest name) excluded by known_F20a and refuted by witness. No axioms.',
+   technique='Coq proof by computation over tables regenerated from source + model/implementation correspondence for the guesser',
+   ref='section 9, C20'),
 }
 
 def main():
